@@ -1047,6 +1047,36 @@ def generate_method_ctl(method_cls):
     return "\n".join(out) + "\nend Gen.MethodCtl\n", []
 
 
+def generate_search_data_ctl(sd_mod):
+    """statement trees (same `Stmt`) of the containers of iOpt/method/search_data.py: CharacteristicsQueue, SearchData and
+    SearchDataDualQueue (every method)"""
+    out = ["-- GENERATED by harness/src2lean.py from the SOURCE TEXT of iOpt/method/search_data.py under /repo; do not edit.\n"
+           "import IOptGen.ProcessSrc\n"
+           "/-!\nEvery method of `CharacteristicsQueue`, `SearchData` and `SearchDataDualQueue` as a statement tree (`Gen.ProcSrc.Stmt`).\n-/\n"
+           "namespace Gen.SearchDataCtl\nopen Gen.ProcSrc\n"]
+    names = []
+    for cname in ("CharacteristicsQueue", "SearchData", "SearchDataDualQueue"):
+        cls = getattr(sd_mod, cname)
+        for attr, fn in cls.__dict__.items():
+            if not callable(fn):
+                continue
+            try:
+                fa = func_ast(fn)
+            except (OSError, TypeError):
+                continue
+            if not isinstance(fa, ast.FunctionDef):
+                continue
+            nm = cname[0].lower() + cname[1:] + "_" + attr.strip("_")
+            names.append(nm)
+            params = [a.arg for a in fa.args.args]
+            defaults = [ast.unparse(d) for d in fa.args.defaults]
+            out.append(f"/-- parameters of `{cname}.{attr}` (defaults of the trailing ones: {defaults}) -/\ndef {nm}Params : List String := "
+                       + "[" + ", ".join(_lean_str(x) for x in params) + "]\n")
+            out.append(f"/-- body of `{cname}.{attr}` -/\ndef {nm} : List Stmt :=\n  " + _stmts_to_lean(fa.body, 2) + "\n")
+    out.append("/-- the methods translated above -/\ndef methods : List String := [" + ", ".join(_lean_str(n_) for n_ in names) + "]\n")
+    return "\n".join(out) + "\nend Gen.SearchDataCtl\n", []
+
+
 def problem_classes():
     from iOpt.problems.rastrigin import Rastrigin
     from iOpt.problems.xsquared import XSquared
@@ -1173,6 +1203,9 @@ if __name__ == "__main__":
     if "--s3" in sys.argv:
         from iOpt.problems.stronginC3 import StronginC3
         text, errors = generate_s3(StronginC3)
+    if "--sdctl" in sys.argv:
+        import iOpt.method.search_data as sdm
+        text, errors = generate_search_data_ctl(sdm)
     if "--mctl" in sys.argv:
         text, errors = generate_method_ctl(mm.Method)
     if "--proc" in sys.argv:
